@@ -24,8 +24,14 @@ def valid_lines(rng, n):
     seen = set()
     while len(out) < n:
         addr = rng.randrange(1, 1 << 24)
-        kind = rng.randrange(3)
-        if kind == 0:
+        kind = rng.randrange(4)
+        if kind == 3:
+            # a frame of any format the decoder knows (the military format, which renders as nothing, included)
+            df = rng.choice(sorted(gen.SUPPORTED))
+            b = gen.rnd_frame(rng, df)
+            if df == 19 or rng.random() < 0.3:
+                b = gen.rnd_frame(rng, 19)
+        elif kind == 0:
             b = track_checks.f_ident(rng, addr, "AB" + str(rng.randrange(100, 999)))
         elif kind == 1:
             b = track_checks.f_pos(rng, addr, 52.0 + rng.uniform(-1, 1), 4.0 + rng.uniform(-1, 1), rng.randrange(2), 10000)
@@ -73,11 +79,11 @@ def concretise(rng, kinds, sched):
             else:
                 if al == -5:
                     # abstract bytes of a U line: `*`, two halves of the hex, the stray byte, `;` newline
-                    inner = {0: 0, 1: 1, 2: rng.randrange(2, 15), 3: len(ln) - 3, 4: len(ln) - 2}[a]
+                    inner = {0: 0, 1: 1, 2: rng.randrange(2, len(ln) // 2), 3: len(ln) - 3, 4: len(ln) - 2}[a]
                     return off + inner
                 if al == 5:
                     # abstract positions 1..4 inside a frame line: after '*', inside the hex (two places), before ';' newline
-                    inner = {0: 0, 1: 1, 2: rng.randrange(2, 15), 3: rng.randrange(15, len(ln) - 2), 4: len(ln) - 1}[a]
+                    inner = {0: 0, 1: 1, 2: rng.randrange(2, len(ln) // 2), 3: rng.randrange(len(ln) // 2, len(ln) - 2), 4: len(ln) - 1}[a]
                     return off + inner
                 return off + a
         return off
